@@ -145,3 +145,46 @@ Proof.
     rewrite (Rmin_right a b), (Rmax_left a b), (Rmin_right a m), (Rmax_left a m), (Rmin_right m b), (Rmax_left m b) by lra.
     rewrite Rplus_comm. apply il_points_split; assumption.
 Qed.
+
+(** ** closest point of a line curve: the clamped projection is the exact minimiser over the bounds *)
+Lemma line_norm2 p1 p2 q t :
+  norm2 (vsub (line_point p1 p2 t) q)
+  = t * t * norm2 (vsub p2 p1) - 2 * t * dot (vsub q p1) (vsub p2 p1) + norm2 (vsub q p1).
+Proof.
+  destruct p1 as [[a b] c], p2 as [[d e] f], q as [[g h] i].
+  cbv [line_point norm2 dot vsub vadd vscale vx vy vz fst snd]. ring.
+Qed.
+
+Lemma clamp_cases lo hi x : lo <= hi ->
+  (x <= lo /\ clamp lo hi x = lo) \/ (lo <= x <= hi /\ clamp lo hi x = x) \/ (hi <= x /\ clamp lo hi x = hi).
+Proof.
+  intros H. unfold clamp. destruct (Rle_dec x lo) as [H1|H1].
+  - left. split; [exact H1|]. rewrite !pos_nonpos by lra. lra.
+  - destruct (Rle_dec x hi) as [H2|H2].
+    + right; left. split; [lra|]. rewrite pos_nonneg by lra. rewrite pos_nonpos by lra. lra.
+    + right; right. split; [lra|]. rewrite !pos_nonneg by lra. lra.
+Qed.
+
+Lemma line_closest_opt p1 p2 lo hi q t :
+  0 < norm2 (vsub p2 p1) -> lo <= hi -> lo <= t <= hi ->
+  dist (line_point p1 p2 (line_topt p1 p2 lo hi q)) q <= dist (line_point p1 p2 t) q.
+Proof.
+  intros HA Hlh Ht. unfold dist, norm. apply sqrt_le_1_alt. rewrite !line_norm2.
+  unfold line_topt.
+  set (A := norm2 (vsub p2 p1)) in *. set (B := dot (vsub q p1) (vsub p2 p1)). set (C := norm2 (vsub q p1)).
+  assert (HB : B = A * (B / A)) by (field; lra).
+  set (x := B / A) in *. clearbody x. clearbody A B C.
+  assert (Hg : forall s, s * s * A - 2 * s * B + C = A * (s - x) * (s - x) + (C - A * x * x))
+    by (intros s; rewrite HB; ring).
+  rewrite !Hg.
+  destruct (clamp_cases lo hi x Hlh) as [[H1 ->]|[[H1 ->]|[H1 ->]]].
+  - assert (P : 0 <= (t - lo) * (t + lo - 2 * x)) by (apply Rmult_le_pos; lra).
+    assert (E : A * (t - x) * (t - x) - A * (lo - x) * (lo - x) = A * ((t - lo) * (t + lo - 2 * x))) by ring.
+    assert (0 <= A * ((t - lo) * (t + lo - 2 * x))) by (apply Rmult_le_pos; lra). lra.
+  - assert (E : A * (x - x) * (x - x) = 0) by ring.
+    assert (0 <= A * ((t - x) * (t - x))) by (apply Rmult_le_pos; [lra|exact (Rle_0_sqr (t - x))]).
+    replace (A * (t - x) * (t - x)) with (A * ((t - x) * (t - x))) by ring. lra.
+  - assert (P : 0 <= (hi - t) * (2 * x - t - hi)) by (apply Rmult_le_pos; lra).
+    assert (E : A * (t - x) * (t - x) - A * (hi - x) * (hi - x) = A * ((hi - t) * (2 * x - t - hi))) by ring.
+    assert (0 <= A * ((hi - t) * (2 * x - t - hi))) by (apply Rmult_le_pos; lra). lra.
+Qed.
